@@ -3,7 +3,8 @@
 // J (round 3, coq/C12/CorrJ.v) entry points of the Real containers on operands holding jets at order 2,
 // C (round 5, coq/C12/CorrA.v) As-conversions between representations, I (round 5) clones of plain and joint iterators,
 // V sparse vectors, E algorithm entry points and distribution constructors, H (coq/C12/CorrH.v) HISTORIES:
-// sequences of calls of one entry point sharing a caller-owned InSitu struct, and of one estimator.
+// sequences of calls of one entry point sharing a caller-owned InSitu struct, and of one estimator,
+// O (round 6, coq/C12/CorrO.v) option lists passed from a caller-held slice with spare capacity.
 //
 //	c12 --seed S --n N --out DIR [--tier quick|thorough]        correspondence cases
 //	c12 --extra hunt  --seed S --n N --out DIR                   property-level search on the implementation
@@ -44,6 +45,9 @@ func main() {
 		os.Exit(replay(o))
 	case o.Extra == "hunt":
 		os.Exit(hunt(o))
+	case o.Extra == "o": // only the round-6 stream (debugging aid)
+		runOptStream(o, NewRng(o.Seed), o.N)
+		return
 	case o.Extra == "ci": // only the round-5 streams (debugging aid)
 		runConvStream(o, o.N)
 		runIterStream(o, o.N)
@@ -124,6 +128,8 @@ func main() {
 	runEntryStream(o, rng.Split(), nE)
 	// ---- H
 	runSeqStream(o, rng.Split(), o.N/4)
+	// ---- O (round 6): option lists held by the caller
+	runOptStream(o, rng.Split(), o.N)
 	fmt.Println("done")
 }
 
